@@ -29,6 +29,8 @@ type RPCError struct {
 	Code    int
 	Msg     string
 	Details []*anypb.Any
+	// RawGrpcMessage, when set, is sent verbatim as grpc-message by gRPC / gRPC-Web backends (hostile backends only).
+	RawGrpcMessage string
 }
 
 type BareHTTP struct {
@@ -61,6 +63,7 @@ type BackendScript struct {
 	RespondFirst bool          // write the response before reading the request (streams)
 	NoRead     bool
 	BareCT     bool            // gRPC: answer with "application/grpc" (no +proto)
+	HostilePayload []byte      // if set (and the backend may compress): the only response message, sent flagged/declared compressed as is
 	RawBody    []byte          // if UseRaw: response body bytes written verbatim after the head
 	UseRaw     bool
 	RawFlagsEnd *byte
@@ -696,7 +699,9 @@ func grpcStatusInto(h http.Header, e *RPCError, prefix string) {
 		return
 	}
 	h[prefix+"Grpc-Status"] = []string{strconv.Itoa(e.Code)}
-	if e.Msg != "" {
+	if e.RawGrpcMessage != "" {
+		h[prefix+"Grpc-Message"] = []string{e.RawGrpcMessage}
+	} else if e.Msg != "" {
 		h[prefix+"Grpc-Message"] = []string{grpcPctEncode(e.Msg)}
 	}
 	if len(e.Details) > 0 {
@@ -740,6 +745,21 @@ func (b *Backend) respond(w http.ResponseWriter, r *http.Request) {
 		comp = s.Comp
 	}
 	o.UsedComp = comp
+	if s.HostilePayload != nil && comp != "" {
+		// one message that is declared compressed and does not inflate (or inflates enormously), framed for this protocol
+		cp := *s
+		cp.UseRaw, cp.RawComplete, cp.Err, cp.FrameComp = true, false, nil, nil
+		switch o.Proto {
+		case "grpc", "grpcweb", "connect-stream":
+			cp.RawBody = appendFrame(nil, 1, s.HostilePayload)
+			if o.Proto == "connect-stream" {
+				cp.RawBody = appendFrame(cp.RawBody, 2, []byte("{}"))
+			}
+		default:
+			cp.RawBody = s.HostilePayload
+		}
+		s = &cp
+	}
 	nmsgs := len(s.Msgs)
 	if s.Err != nil && s.ErrAfter < nmsgs {
 		nmsgs = s.ErrAfter
